@@ -34,7 +34,7 @@ RULE = ("seeded (period, max_age in {1,1.5,3,10}, initial/max buffer lengths {1,
 REQUIRED_BUCKETS = ["tick-nonempty", "tick-empty(None)", "sample-exactly-T", "sample-exactly-T-minus-age",
                     "future-sample-excluded", "old-sample-excluded", "none-or-nan-input", "zero-valued-input", "input-period-estimated",
                     "buffer-resized", "buffer-evicted", "upsampling", "downsampling", "silence>max-age",
-                    "default-resampling-function"]
+                    "default-resampling-function", "equal-timestamps"]
 REQUIRED_COUNTERS = ["ticks_compared", "function_calls_observed", "input_period_estimates_checked"]
 ASSUMPTIONS = ["time-ordered inputs; virtual clock"]
 
@@ -61,8 +61,8 @@ def gen(rng: Any, tier: str, i: int) -> Any:
             d = round(ip * rng.choice([1, 1, 1, 1, 0.2, 3, 6, age * 1.5 + 1]) + 0.0137, 6)
             t += d
             r = rng.random()
-            tsk = rng.choices(["now", "past", "future", "far-future", "grid-next", "grid-prev", "grid-age-edge"],
-                              weights=[50, 10, 8, 5, 10, 7, 10])[0]
+            tsk = rng.choices(["now", "past", "future", "far-future", "grid-next", "grid-prev", "grid-age-edge", "same"],
+                              weights=[50, 10, 8, 5, 10, 7, 10, 6])[0]
             vk = "ok" if r > 0.15 else rng.choice(["none", "nan", "zero"])
             ev.append([d, tsk, vk])
         series.append({"add_at": 0.0, "events": ev, "ip": ip})
@@ -88,6 +88,8 @@ def check(case: dict[str, Any], rec: Any) -> None:
             rec.bucket("none-or-nan-input")
         if any(v == "zero" for _, _, v in s["events"]):
             rec.bucket("zero-valued-input")
+        if any(k == "same" for _, k, _ in s["events"][1:]):
+            rec.bucket("equal-timestamps")
         if any(d > age * max(p, s["ip"]) for d, _, _ in s["events"]):
             rec.bucket("silence>max-age")
     for i, lst in r["sinks"].items():
